@@ -171,9 +171,13 @@ def worker(shard, part):
 def main(tier, seed, only=None):
     top = 3 if tier == "quick" else 5
     shards = [(h, w, how) for h in range(0, top + 1) for w in range(0, top + 1) for how in ("default", "explicit", "dual-of-inner")]
+    # scale family: the same complete coordinate sweep on frames with more than 256 / 4096 segments and rows wider than 32
+    for (h, w) in ([(16, 17), (1, 300), (33, 2)] if tier == "quick" else [(16, 17), (1, 300), (300, 1), (33, 2), (2, 40), (45, 45), (64, 33)]):
+        shards.append((h, w, "default"))
+        shards.append((h, w, "dual-of-inner"))
     run = harness.Run(
         PID, tier, seed, "exploration",
-        "BoolGridFrame with h, w in 0..%d, built by default, from explicit arrays, and as the dual of a BoolInnerGridFrame; __getitem__ at "
+        "BoolGridFrame with h, w in 0..%d (plus large frames 16x17, 1x300, 33x2; thorough 45x45, 64x33), built by default, from explicit arrays, and as the dual of a BoolInnerGridFrame; __getitem__ at "
         "every doubled coordinate in [-2,2h+2]x[-2,2w+2]; cell_neighbors / vertex_neighbors at every coordinate in [-1,h+1]x[-1,w+1] in both call "
         "forms; all_edges, iteration, graph._from_grid_frame, dual(), dual().dual().  Reference model: segment = pair of lattice points -> "
         "variable id.  Non-trivial = distinct (frame, construction) fully checked." % top,
